@@ -15,7 +15,7 @@
    (sizeof, signedness).  Sanity theorems about Level A itself guard against
    a vacuous oracle.
 
-   Shapes: bin un cast cond | asg (initializer/argument/return/assignment) test
+   Shapes: bin un cast cond cc (cast chain) ptr (pointer +- integer, p - q, comparisons) | asg (initializer/argument/return/assignment) test
    opasg incdec | d2l d2r d2u (depth 2, boundary values; ConstEval only).   *)
 EXTENDS ChibiInt
 
@@ -38,6 +38,9 @@ Cases ==
   \cup ({"test"} \X N1 \X N1 \X Types \X N1 \X N1)
   \cup ({"opasg"} \X AsgOps \X N1 \X Types \X Types \X N1)       \* object x : a  op=  y : b
   \cup ({"incdec"} \X IncDecKinds \X N1 \X Types \X N1 \X N1)
+  \cup ({"cc"} \X N1 \X N1 \X Types \X Types \X Types)           \* (c)(b) x, x : a   (cast chain)
+  \cup ({"ptr"} \X PtrArithOps \X N1 \X Types \X N1 \X N1)         \* &arr[y] + x, x : a
+  \cup ({"ptr"} \X PtrRelOps \X N1 \X N1 \X N1 \X N1)              \* &arr[y] - &arr[z], <, ...
   \cup ({"d2l", "d2r"} \X D2Ops1 \X D2Ops2 \X D2Types \X D2Types \X D2Types)
   \cup ({"d2u"} \X D2Ops1 \X (UnOps \cup {"tolong", "tobool"}) \X D2Types \X D2Types \X N1)
 
@@ -47,9 +50,14 @@ All(t) == IF t = "-" THEN {0} ELSE Vals(t)
 Init == /\ ph = 0 /\ x = 0 /\ y = 0 /\ z = 0
         /\ \E cs \in Cases : /\ cs[1] \in Shapes
                              /\ sh = cs[1] /\ op = cs[2] /\ op2 = cs[3] /\ a = cs[4] /\ b = cs[5] /\ c = cs[6]
+PtrN == 5                       \* elements of the array (PtrN * size < 2^(WLong-1): an object is smaller than PTRDIFF_MAX)
+PtrSizes == {1, 2, 3}           \* element sizes
+PtrBases == {0, 5}              \* address of the array (PtrBases + PtrN * PtrSizes < 2^WLong)
 Next == /\ ph = 0 /\ ph' = 1
         /\ UNCHANGED <<sh, op, op2, a, b, c>>
-        /\ IF sh \in {"d2l", "d2r", "d2u"}
+        /\ IF sh = "ptr" THEN x' \in All(a) /\ y' \in 0..PtrN /\ z' \in (IF op \in PtrRelOps THEN 0..PtrN ELSE {0})
+           ELSE IF sh = "cc" THEN x' \in All(a) /\ y' = 0 /\ z' = 0
+           ELSE IF sh \in {"d2l", "d2r", "d2u"}
            THEN x' \in Bnd(a) /\ y' \in Bnd(b) /\ z' \in Bnd(c)
            ELSE IF sh = "cond" THEN x' \in Bnd(a) /\ y' \in Bnd(b) /\ z' \in All(c)
            ELSE IF sh = "opasg" /\ ~OpAsgAll THEN x' \in Bnd(a) /\ y' \in Bnd(b) /\ z' = 0
@@ -66,6 +74,7 @@ LA == CASE sh = "bin"    -> Bin(op, a, x, b, y)
         [] sh = "test"   -> Test(Res(TRUE, a, x))
         [] sh = "opasg"  -> OpAssign(op, a, x, Res(TRUE, b, y))
         [] sh = "incdec" -> IncDec(op, a, x)
+        [] sh = "cc"     -> Cast(c, b, Cast(b, a, x).v)
         [] OTHER -> Bad
 Mem(t, v) == U(v, StoreW(t))
 LI(g1, g2, g3) ==
@@ -77,9 +86,10 @@ LI(g1, g2, g3) ==
     [] sh = "test"   -> IR("int", Bool01(CmpZero(a, Reg(a, x, g1))))
     [] sh = "opasg"  -> IOpAssign(op, a, Mem(a, x), IR(b, Reg(b, y, g2)))
     [] sh = "incdec" -> IIncDec(op, a, Mem(a, x))
+    [] sh = "cc"     -> ICastE(c, b, ICastE(b, a, Reg(a, x, g1)).r)
     [] OTHER -> IR("int", 0)
 G(t) == IF t = "-" THEN {0} ELSE Garb(t)
-Depth1 == sh \in {"bin", "un", "cast", "cond", "asg", "test", "opasg", "incdec"}
+Depth1 == sh \in {"bin", "un", "cast", "cond", "asg", "test", "opasg", "incdec", "cc"}
 
 (* the type chibicc gives the expression has the C11 size and signedness (whenever some operand values make it defined) *)
 TypeInv == (ph = 1 /\ Depth1) => LET la == LA IN la.ok => TyObs(LI(0, 0, 0).t) = TyObs(la.t)
@@ -109,13 +119,27 @@ Tree == CASE sh = "bin"  -> BinE(op, L(a, x), L(b, y))
           [] sh = "un"   -> UnE(op, L(a, x))
           [] sh = "cast" -> CastE(b, L(a, x))
           [] sh = "cond" -> CondE(L(c, z), L(a, x), L(b, y))
+          [] sh = "cc"   -> CastE(c, CastE(b, L(a, x)))
           [] sh = "d2l"  -> BinE(op2, BinE(op, L(a, x), L(b, y)), L(c, z))
           [] sh = "d2r"  -> BinE(op2, L(c, z), BinE(op, L(a, x), L(b, y)))
           [] sh = "d2u"  -> IF op2 = "tolong" THEN CastE("long", BinE(op, L(a, x), L(b, y)))
                             ELSE IF op2 = "tobool" THEN CastE("bool", BinE(op, L(a, x), L(b, y)))
                             ELSE UnE(op2, BinE(op, L(a, x), L(b, y)))
           [] OTHER -> L("int", 0)
-ConstInv == (ph = 1 /\ sh \in {"bin", "un", "cast", "cond", "d2l", "d2r", "d2u"}) => ConstAgrees(Tree)
+ConstInv == (ph = 1 /\ sh \in {"bin", "un", "cast", "cond", "cc", "d2l", "d2r", "d2u"}) => ConstAgrees(Tree)
+
+(* pointers: the address chibicc computes is the address of the element C11 designates, for every
+   element size, array address and garbage pattern of the integer operand; p - q and the comparisons
+   give the index difference / order *)
+PtrInv ==
+  (ph = 1 /\ sh = "ptr") =>
+    \A s \in PtrSizes, bs \in PtrBases :
+      IF op \in PtrArithOps
+      THEN LET la == PtrArith(op, y, x, PtrN) IN
+           la.ok => \A g1 \in G(a) : IPtrArith(op, bs + y * s, a, Reg(a, x, g1), s) = bs + la.v * s
+      ELSE LET la == PtrRel(op, y, z)
+               i  == IPtrRel(op, bs + y * s, bs + z * s, s)
+           IN TyObs(i.t) = TyObs(la.t) /\ RegOK(i.t, i.r, la.v) /\ Obs(i) = U(la.v, WL)
 
 (* ---- sanity theorems about Level A (not vacuous, not self-contradictory) ---- *)
 Commutes == {"add", "mul", "band", "bor", "bxor", "eq", "ne", "land", "lor"}
